@@ -1703,7 +1703,7 @@ func c10CopySourceIsPlainReader(p *Prog, r *Report, rule string) {
 		return
 	}
 	info := fi.Pkg.TypesInfo
-	f := p.FlatOf(fi)
+	f := p.FlatInl(fi)
 	hasMethod := func(t types.Type, name string) bool {
 		ms := types.NewMethodSet(t)
 		for i := 0; i < ms.Len(); i++ {
@@ -1748,7 +1748,18 @@ func c10CopySourceIsPlainReader(p *Prog, r *Report, rule string) {
 					bad = "the source type " + tv.Type.String() + " implements io.WriterTo"
 				}
 			}
-			if o := objOf(info, src); o != nil {
+			if sel, isSel := src.(*ast.SelectorExpr); isSel {
+				// a field of the call's state: judged by the value its one struct literal stores there
+				init := ast.Expr(nil)
+				if base := f.CanonPath(sel.X); base != "" {
+					init = f.pathInit(base, sel.Sel.Name)
+				}
+				if init != nil {
+					check(init)
+				} else {
+					check(src)
+				}
+			} else if o := objOf(info, src); o != nil {
 				defs := f.ReachingDefs(gn.ID, o)
 				if len(defs) == 0 {
 					check(src)
